@@ -149,7 +149,9 @@ def run(ctx, res):
         import pandas as pd
 
         lab = list(range(len(df) * 2, len(df), -1))
-        for n in [x for x in pick if x in base.columns and base[x].nunique() > 1][: (4 if ctx.tier == "quick" else 25)]:
+        varying = [x for x in pick if x in base.columns and base[x].nunique() > 1]
+        grp = [x for x in nodes if x.endswith(("_hh", "_fg", "_bg")) and x in base.columns and base[x].nunique() > 1]
+        for n in list(dict.fromkeys(grp[:3] + varying))[: (6 if ctx.tier == "quick" else 30)]:
             dd = {c: pd.Series(df[c].to_numpy(), index=lab, name=c) for c in df.columns}
             dd[n] = pd.Series(base[n].to_numpy(), name=n)
             try:
